@@ -237,3 +237,145 @@ Section OneNode.
     unfold T. apply Nat.ltb_lt in Hi. rewrite Hi. reflexivity.
   Qed.
 End OneNode.
+
+(* ------------------------------------------------------------------ the descent of node.find *)
+Definition fnode_of (r : N * Z * N * Z) : N := fst (fst (fst r)).
+Definition fidx_of (r : N * Z * N * Z) : Z := snd (fst (fst r)).
+
+Lemma slot_nat : forall n i, slot n (Z.of_nat i) = nth i (nslots n) zero_item.
+Proof. intros. unfold slot, zget. destruct (Z.of_nat i <? 0) eqn:E; [lia|]. rewrite Nat2Z.id. reflexivity. Qed.
+
+Lemma child_id_nat : forall n ch i, nchildren n = Some ch -> child_id n (Z.of_nat i) = nth i ch 0%N.
+Proof. intros n ch i H. unfold child_id, zget. rewrite H. destruct (Z.of_nat i <? 0) eqn:E; [lia|]. rewrite Nat2Z.id. reflexivity. Qed.
+
+(* Find(key, true): if the key occurs in the subtree the descent ends on the first item carrying
+   it; otherwise the incoming "found so far" is returned unchanged *)
+Lemma find_loop_first : forall h s k id l, shape (bnodes s) h id l -> sorted l ->
+  forall fuel, (h <= fuel)%nat -> forall fn fi,
+  let r := find_loop fuel s k true id fn fi in
+  (has_key l k = true -> exists n', getn s (fnode_of r) = Some n' /\ 0 <= fidx_of r < ncount n' /\
+                                    nth_error l (lb l k) = Some (slot n' (fidx_of r))) /\
+  (has_key l k = false -> fnode_of r = fn /\ fidx_of r = fi).
+Proof.
+  induction h as [|h IH]; intros s k id l Hs Hsort fuel Hf fn fi; [inversion Hs|].
+  inversion Hs as [h' id' n kids Hid Hget Hcnt Hlen Hnone Hsome]; subst.
+  destruct fuel as [|f]; [lia|]. cbn [find_loop].
+  assert (Hgetn : getn s id = Some n).
+  { unfold getn. destruct (N.eqb id 0) eqn:E; [apply N.eqb_eq in E; congruence|exact Hget]. }
+  rewrite Hgetn.
+  assert (Hpos : (0 <? ncount n) = true) by lia. rewrite Hpos. cbn [andb].
+  pose proof (occupied_sorted n kids ltac:(lia) Hsort) as Hocc.
+  rewrite (node_search_is_lb n k ltac:(lia) Hocc).
+  set (idx := lb (occupied n) k). rewrite slot_nat.
+  set (sl := nth idx (nslots n) zero_item).
+  pose proof (idx_le n k Hcnt Hlen) as Hile. fold idx in Hile.
+  pose proof (node_has_key n kids k Hcnt Hlen Hsort) as Hhk. fold idx sl in Hhk.
+  pose proof (node_first_in_kid n kids k Hcnt Hlen Hsort) as Hkid. fold idx in Hkid.
+  pose proof (node_first_on_slot n kids k Hcnt Hlen Hsort) as Hslot. fold idx sl in Hslot.
+  pose proof (K_sorted n kids k Hcnt Hlen Hsort) as HKs. fold idx in HKs.
+  assert (Hlt : (Z.of_nat idx <? ncount n) = Nat.ltb idx (Z.to_nat (ncount n))).
+  { destruct (Nat.ltb idx (Z.to_nat (ncount n))) eqn:E; [apply Nat.ltb_lt in E|apply Nat.ltb_ge in E]; lia. }
+  rewrite Hlt. rewrite andb_false_r.
+  set (hit := Nat.ltb idx (Z.to_nat (ncount n)) && (ikey sl =? k)) in *.
+  (* the answer when the search stops at this node *)
+  assert (Hstop : has_key (nth idx kids []) k = false ->
+    let r := ((if hit then id else fn), (if hit then Z.of_nat idx else fi), id, Z.of_nat idx) in
+    (has_key (node_list n kids) k = true -> exists n', getn s (fnode_of r) = Some n' /\ 0 <= fidx_of r < ncount n' /\
+        nth_error (node_list n kids) (lb (node_list n kids) k) = Some (slot n' (fidx_of r))) /\
+    (has_key (node_list n kids) k = false -> fnode_of r = fn /\ fidx_of r = fi)).
+  { intros HK. cbv zeta. unfold fnode_of, fidx_of. cbn [fst snd]. rewrite Hhk, HK. cbn [orb]. fold hit.
+    destruct hit eqn:Eh.
+    - split; [|discriminate]. intros _. unfold hit in Eh. apply andb_true_iff in Eh as [E1 E2].
+      apply Nat.ltb_lt in E1. exists n. split; [exact Hgetn|]. split; [lia|].
+      rewrite slot_nat. fold sl. apply Hslot; auto. lia.
+    - split; [discriminate|]. intros _. split; reflexivity. }
+  destruct (has_children n) eqn:Ehc.
+  - destruct (nchildren n) as [ch|] eqn:Ech; [|unfold has_children in Ehc; rewrite Ech in Ehc; discriminate].
+    rewrite (child_id_nat n ch idx Ech).
+    destruct (Hsome ch eq_refl idx Hile) as [[H0 Hk0]|[Hn0 Hsh]].
+    + rewrite H0. cbn [N.eqb]. apply Hstop. rewrite Hk0. reflexivity.
+    + destruct (N.eqb (nth idx ch 0%N) 0) eqn:E; [apply N.eqb_eq in E; congruence|].
+      specialize (IH s k _ _ Hsh HKs f ltac:(lia) (if hit then id else fn) (if hit then Z.of_nat idx else fi)).
+      cbv zeta in IH. destruct IH as [IH1 IH2].
+      destruct (has_key (nth idx kids []) k) eqn:HK.
+      * split.
+        -- intros _. destruct (IH1 eq_refl) as [n' [Hg [Hr Hn]]]. exists n'. split; [exact Hg|]. split; [exact Hr|].
+           rewrite (Hkid eq_refl). exact Hn.
+        -- rewrite Hhk. cbn [orb]. discriminate.
+      * destruct (IH2 eq_refl) as [E1 E2]. specialize (Hstop eq_refl). cbv zeta in Hstop.
+        unfold fnode_of, fidx_of in *. cbn [fst snd] in Hstop. rewrite E1, E2. exact Hstop.
+  - apply Hstop. destruct (nchildren n) as [ch|] eqn:Ech.
+    + (* an empty child array cannot carry a shaped child; all kids are empty *)
+      unfold has_children in Ehc. rewrite Ech in Ehc. destruct ch; [|discriminate].
+      destruct (Hsome [] eq_refl idx Hile) as [[_ Hk0]|[Hn0 _]]; [rewrite Hk0; reflexivity|].
+      destruct idx; cbn in Hn0; congruence.
+    + rewrite (Hnone eq_refl idx). reflexivity.
+Qed.
+
+(* ------------------------------------------------------------------ Find(key, true) on a stored key *)
+Lemma b_inorder_ext : forall x y, bnodes x = bnodes y -> broot x = broot y -> b_inorder x = b_inorder y.
+Proof. intros x y H1 H2. unfold b_inorder, fuel_of. rewrite H1, H2. reflexivity. Qed.
+
+Theorem find_first_hit_sim : forall cfg b s k, RelT b s -> sorted (items s) -> has_key (items s) k = true ->
+  exists b' s', sim_step cfg b s (OFind k true) = Some (b', s') /\ RelT b' s' /\
+                cur s' = CAt (lb (items s) k) /\ items s' = items s.
+Proof.
+  intros cfg b s k [Hi Hc Hca Hcur Hck Hsh] Hsort Hhas.
+  assert (Hne : items s <> []) by (intros E; rewrite E in Hhas; discriminate).
+  assert (Hbc : bcount b <> 0).
+  { unfold ocount in Hc. destruct (items s); [congruence|cbn in Hc; lia]. }
+  destruct (Hsh Hbc) as [h [Hshape Hh]].
+  unfold sim_step. cbn [bstep ostep bres]. unfold b_find.
+  assert (E0 : (bcount b =? 0) = false) by lia. rewrite E0.
+  rewrite andb_false_r. cbn [andb].
+  set (b0 := if is_selected b then load_current b else b).
+  assert (Hb0 : bnodes b0 = bnodes b /\ broot b0 = broot b /\ bcount b0 = bcount b /\ fuel_of b0 = fuel_of b /\
+                (forall id, getn b0 id = getn b id)).
+  { unfold b0, load_current. destruct (is_selected b); [destruct (N.eqb (bcur_node b) 0)|]; repeat split; reflexivity. }
+  destruct Hb0 as [Hn0 [Hr0 [Hc0 [Hf0 Hg0]]]].
+  rewrite Hf0, Hr0.
+  assert (Hshape0 : shape (bnodes b0) h (broot b) (b_inorder b)) by (rewrite Hn0; exact Hshape).
+  assert (Hsort' : sorted (b_inorder b)) by (rewrite <- Hi; exact Hsort).
+  pose proof (find_loop_first h b0 k (broot b) (b_inorder b) Hshape0 Hsort'
+                (fuel_of b) Hh 0%N 0) as [Hhit _].
+  cbv zeta in Hhit. rewrite <- Hi in Hhit. destruct (Hhit Hhas) as [n' [Hg [Hrange Hnth]]].
+  set (r := find_loop (fuel_of b) b0 k true (broot b) 0 0) in *.
+  destruct r as [[[fnode fidx] lid] lidx] eqn:Er. unfold fnode_of, fidx_of in *. cbn [fst snd] in *.
+  assert (Hfn : N.eqb fnode 0 = false).
+  { destruct (N.eqb fnode 0) eqn:E; [|reflexivity]. unfold getn in Hg. rewrite E in Hg. discriminate. }
+  unfold find_finish. rewrite Hfn. cbn [negb fst snd].
+  set (b' := load_current (set_current b0 fnode fidx)).
+  assert (Hb' : b' = with_cached (set_current b0 fnode fidx) true).
+  { unfold b', load_current. cbn [bcur_node set_current]. rewrite Hfn. reflexivity. }
+  assert (Hin : b_inorder b' = b_inorder b).
+  { apply b_inorder_ext; rewrite Hb'; cbn [bnodes broot with_cached set_current]; assumption. }
+  unfold find_first. destruct (items s) as [|x0 r0] eqn:El; [congruence|]. rewrite <- El in *.
+  rewrite Hhas.
+  exists b', (set_cur s (CAt (lb (items s) k)) true).
+  assert (Hgb' : getn b' fnode = Some n') by (rewrite Hb'; change (getn (with_cached (set_current b0 fnode fidx) true) fnode) with (getn b0 fnode); exact Hg).
+  assert (Hcurs : same_cursor (set_cur s (CAt (lb (items s) k)) true) b' = true).
+  { unfold same_cursor. cbn [cur set_cur items].
+    assert (Hcn : bcur_node b' = fnode) by (rewrite Hb'; reflexivity).
+    assert (Hci : bcur_idx b' = fidx) by (rewrite Hb'; reflexivity).
+    rewrite Hcn, Hci, Hfn, Hgb', Hnth. cbn [negb andb]. rewrite item_eqb_refl.
+    assert (((0 <=? fidx) && (fidx <? ncount n'))%bool = true) by lia. rewrite H. reflexivity. }
+  assert (Hkey : current_key (set_cur s (CAt (lb (items s) k)) true) = bcurrent_key b').
+  { unfold current_key, bcurrent_key, cur_item, cursor_item. cbn [cached cur set_cur items]. rewrite Hnth.
+    assert (Hcn : bcur_node b' = fnode) by (rewrite Hb'; reflexivity).
+    assert (Hci : bcur_idx b' = fidx) by (rewrite Hb'; reflexivity).
+    assert (Hbca : bcached b' = true) by (rewrite Hb'; reflexivity).
+    rewrite Hbca, Hcn, Hci, Hgb'. reflexivity. }
+  assert (Hcount : bcount b' = bcount b) by (rewrite Hb'; cbn [bcount with_cached set_current]; exact Hc0).
+  split; [|split; [|split; reflexivity]].
+  - rewrite agree_intro; auto.
+    + unfold ocount. cbn [items set_cur]. fold (ocount s). rewrite Hc, Hcount. reflexivity.
+    + rewrite Hb'. reflexivity.
+    + cbn [items set_cur]. rewrite Hin. exact Hi.
+  - constructor; auto.
+    + cbn [items set_cur]. rewrite Hin. exact Hi.
+    + unfold ocount. cbn [items set_cur]. fold (ocount s). rewrite Hc, Hcount. reflexivity.
+    + rewrite Hb'. reflexivity.
+    + intros _. exists h. rewrite Hin. split.
+      * rewrite Hb'. cbn [bnodes broot with_cached set_current]. rewrite Hn0, Hr0. exact Hshape.
+      * rewrite Hb'. unfold fuel_of in *. cbn [bnodes with_cached set_current]. rewrite Hn0. exact Hh.
+Qed.
